@@ -89,8 +89,11 @@ def other(pid, text, trusted=(), assumptions=()):
 
 
 other("C01", "the transition tables of PandoraMachine (check and run phases) are decided exhaustively as finite data obligations "
-      "against the documented machine (@tables: every state/trigger pair, re-read from the class body on every run); acceptance "
-      "and execution of whole pipelines:")
+      "against the documented machine (@tables: every state/trigger pair, re-read from the class body on every run); 'each step "
+      "takes effect on the left data and, when a validation step is present, symmetrically on the right data': every <step>_run "
+      "callback is executed symbolically with the step operations uninterpreted and its effects are shown invariant under the "
+      "exchange of the left and right records / absent on the right records (the glue contracts of C08); acceptance and "
+      "execution of whole pipelines through the transitions library, machine reset:")
 other("C02", "point_interval (the column ranges of the two images that a disparity puts in correspondence: in range, equal length, "
       "offset by the disparity, empty when the disparity exceeds the width) and popcount32b (Hamming weight of a 32-bit word, "
       "bit-vector proof) are proved for all inputs; shift_right_img / census_transform leave their input image untouched ("
